@@ -10,6 +10,8 @@ ID = "C05"
 BUDGET = {"quick": 6000, "thorough": 120000}
 MIN_NONTRIVIAL = {"quick": 300, "thorough": 3000}
 EL = {"i8": 1, "i16": 2, "i32": 4, "i64": 8}
+#: storage bytes of element types whose width is not a multiple of 8 (FixedBitwidthType.size = ceil(width / 8))
+EL_ODD = {"i1": 1, "i4": 1, "i12": 2}
 RULE = (
     "cases: one memref.copy between two layouts of equal tile bounds: rank 1-4, tile depth 1-3, bounds 1-4, element widths 8/16/32/64; each "
     "side is row-major (no layout), strided<[..], offset> (permuted dimensions, padding, static or dynamic strides/offset) or #tsl.tsl (any "
